@@ -565,6 +565,14 @@ MISC_HDR = HDR + ["class T(Entity):", "    clk = Port.input(Bit)", "    a = Port
                   "            si.next = 1 if self.b else 2 if self.a else 0"]
 MISC_HDR = [l for l in MISC_HDR if not l.startswith("class T(")]
 MISC_HDR = MISC_HDR[:len(HDR)] + ["from cohdl import enum", "class E3(enum.Enum):", "    ea = enum.auto()", "    eb = enum.auto()", "    ec = enum.auto()",
+                                  # boolean valued helpers with several return paths (the merged result is an intermediate)
+                                  "def in_window(mode, value, low, high):", "    if mode:", "        return value >= low", "    else:", "        return value <= high",
+                                  "def check_mode(sel, value, low, high):", "    match sel:", "        case 0:", "            return value == low",
+                                  "        case 1:", "            return value == high", "        case 2:", "            return value < high",
+                                  "        case _:", "            return value != low",
+                                  "def first_hit(sel, value, options):", "    for nr, option in enumerate(options):", "        if sel == nr:",
+                                  "            return value == option", "    else:", "        return value == 0",
+                                  "def early_out(en, value, low):", "    if not en:", "        return False", "    return value > low",
                                   "class T(Entity):"] + MISC_HDR[len(HDR):]
 MISC = {
     # select_with / std.select without default on selector types whose choices do not cover every value
@@ -623,6 +631,15 @@ MISC = {
     "indexed-ref-match-sync": (False, ["elem = self.w[self.x]", "match elem:", "    case '1':", "        self.o2 <<= 1", "    case _:", "        self.o2 <<= 2"]),
     "indexed-slice-match-sync": (False, ["elem = self.w[self.x]", "match self.w[3:2]:", "    case '10':", "        self.o2 <<= 1", "    case _:",
                                          "        self.o <<= elem"]),
+    # boolean helper functions with several return paths used as conditions / values
+    "bool-helper-if-else-as-condition": (False, ["if in_window(self.a, self.x, self.w[1:0].unsigned, self.w[3:2].unsigned):", "    self.o <<= True", "else:", "    self.o2 <<= 1"]),
+    "bool-helper-match-as-condition": (False, ["if check_mode(self.x, self.w[1:0].unsigned, self.w[3:2].unsigned, self.x):", "    self.o <<= True"]),
+    "bool-helper-for-return-as-condition": (False, ["if first_hit(self.x, self.w[1:0].unsigned, (self.w[3:2].unsigned, self.x, 1)):", "    self.o <<= True"]),
+    "bool-helper-early-out-as-value": (False, ["k = early_out(self.a, self.x, self.w[1:0].unsigned)", "self.o <<= k", "if k:", "    self.o2 <<= 2"]),
+    "bool-helper-twice": (False, ["k = in_window(self.a, self.x, self.w[1:0].unsigned, self.w[3:2].unsigned)", "m = in_window(self.b, self.x, self.w[3:2].unsigned, self.w[1:0].unsigned)",
+                                  "if k and m:", "    self.o <<= True", "elif k:", "    self.o2 <<= 1"]),
+    "bool-helper-in-coroutine-state": (True, ["await self.a", "if in_window(self.b, self.x, self.w[1:0].unsigned, self.w[3:2].unsigned):", "    self.o <<= True",
+                                              "await self.b", "k = early_out(self.a, self.x, self.w[1:0].unsigned)", "if k:", "    self.o2 <<= 3"]),
     "always-expr-reads-bit-of-process-intermediate": (False, ["t = self.w | self.w", "self.o <<= cohdl.always(t[0] | self.a)"], True),
     "always-expr-reads-slice-of-process-intermediate": (False, ["t = self.w | self.w", "self.o2 <<= cohdl.always((t[1:0] | self.w[3:2]).unsigned)"], True),
 }
